@@ -1,6 +1,7 @@
 package main
 
 import (
+	"go/types"
 	"fmt"
 	"go/token"
 	"sort"
@@ -68,6 +69,7 @@ func runC12(c *Ctx, r *Run) {
 	r.Rule("SYM-1", "signed plaintext in, symmetric residue out: ExpI on m; Dec ends in SetModSymmetric(·, N)")
 	r.Rule("CRT-1", "Modulus.Exp/ExpI: fallback branch on the same modulus; signed exponent = |e| then conditional inverse selected by IsNegative")
 	r.Rule("HOM-1", "Ciphertext.Mul/Add use their operands as given: c^k mod N² with the caller's k, c·c' mod N²")
+	r.Rule("CLONE-1", "Clone/Copy methods return deep copies: no mutable reference field is shared with the receiver")
 	r.Rule("MTA-1", "newMta / ProveAffG / ProveAffP: keys, clone, operands and the sign of beta have their protocol roles")
 	r.Rule("ALIAS-P", "in-place ciphertext operations only on fresh ciphertexts")
 
@@ -372,6 +374,8 @@ func runC12(c *Ctx, r *Run) {
 	}
 	r.Require("HOM-1", 2)
 
+	checkClones(c, r, "CLONE-1")
+	r.Require("CLONE-1", 2)
 	checkMtaRoles(c, r)
 	checkCiphertextAlias(c, r)
 
@@ -676,4 +680,201 @@ func isRecvModulus(fn *ssa.Function, v ssa.Value) bool {
 		return false
 	}
 	return fa.X == ssa.Value(fn.Params[0]) && fieldName(fa.X.Type(), fa.Field) == "Modulus"
+}
+
+// saferithPure: methods of saferith.Int / Nat that do not write their receiver.
+var saferithPure = map[string]bool{
+	"Abs": true, "Cmp": true, "CmpMod": true, "Eq": true, "EqZero": true, "IsNegative": true, "IsUnit": true, "TrueLen": true, "AnnouncedLen": true,
+	"Bytes": true, "Big": true, "String": true, "Hex": true, "MarshalBinary": true, "FillBytes": true, "Byte": true, "Uint64": true, "Int64": true,
+	"Coprime": true, "CheckInRange": true, "Mod": false, "Clone": true, "Nat": true, "BitLen": true, "Modulus": true,
+}
+
+// checkBigIntAliasing: ALIAS-N. saferith's API writes into the receiver (z.Add(x, y), x.Neg(1), z.SetInt(x)): the
+// receiver must be an object created in the function (new(Int), a local, a sampler / Clone / Dec result), never a value
+// that lives in a message, a proof, key material or round state.
+func checkBigIntAliasing(c *Ctx, r *Run, rule string, fns []*ssa.Function) {
+	var fresh func(v ssa.Value, d int) bool
+	fresh = func(v ssa.Value, d int) bool {
+		if d > 12 {
+			return false
+		}
+		v = stripConv(v)
+		switch x := v.(type) {
+		case *ssa.Alloc, *ssa.Const:
+			return true
+		case *ssa.Phi:
+			for _, e := range x.Edges {
+				if e != ssa.Value(x) && !fresh(e, d+1) {
+					return false
+				}
+			}
+			return true
+		case *ssa.Extract:
+			if call, ok := x.Tuple.(*ssa.Call); ok {
+				return fresh(call, d+1)
+			}
+		case *ssa.UnOp:
+			if x.Op == token.MUL {
+				if defs, fromEntry := reachingStores(x); !fromEntry && len(defs) > 0 {
+					for _, st := range defs {
+						if !fresh(st.Val, d+1) {
+							return false
+						}
+					}
+					return true
+				}
+			}
+		case *ssa.Call:
+			o := calleeObj(x)
+			if o == nil {
+				return false
+			}
+			if o.Pkg() != nil && strings.Contains(o.Pkg().Path(), "saferith") {
+				// z.Op(...) returns z
+				if rv := recvOf(x); rv != nil {
+					if o.Name() == "Abs" || o.Name() == "Nat" || o.Name() == "Big" || o.Name() == "Clone" {
+						return true
+					}
+					return fresh(rv, d+1)
+				}
+				return true // constructors (ModulusFromNat, ...)
+			}
+			// module functions returning new numbers: samplers, Dec, Exp, MakeInt, challenge, ...
+			if o.Pkg() != nil && strings.HasPrefix(o.Pkg().Path(), modPath) {
+				return true
+			}
+		}
+		return false
+	}
+	for _, fn := range fns {
+		fn := fn
+		cnt := map[string]int{}
+		allInstrs(fn, func(in ssa.Instruction) {
+			call, ok := in.(*ssa.Call)
+			if !ok {
+				return
+			}
+			f := call.Call.StaticCallee()
+			if f == nil || f.Pkg == nil || !strings.Contains(f.Pkg.Pkg.Path(), "saferith") || f.Signature.Recv() == nil {
+				return
+			}
+			if pure, known := saferithPure[f.Name()]; known && pure {
+				return
+			}
+			rn := namedOf(derefType(f.Signature.Recv().Type()))
+			if rn == nil || (rn.Obj().Name() != "Int" && rn.Obj().Name() != "Nat") {
+				return
+			}
+			if f.Name() == "Mod" && rn.Obj().Name() == "Int" {
+				return // Int.Mod(m) returns a new Nat and leaves the receiver alone
+			}
+			rv := recvOf(call)
+			r.Analysed(c.FuncName(fn))
+			isFresh := fresh(rv, 0)
+			lbl := "fresh"
+			if !isFresh {
+				lbl = strings.Join(paramFields(fn, rv), "+")
+			}
+			cnt[f.Name()+lbl]++
+			if isFresh && cnt[f.Name()+lbl] > 1 {
+				return // one instance per (method, fresh) and function is enough for the count
+			}
+			r.Check(rule, fmt.Sprintf("%s|%s on %s #%d", c.FuncName(fn), f.Name(), lbl, cnt[f.Name()+lbl]), c.Pos(call.Pos()), isFresh,
+				"the destination of the big-number operation is an object created in this function",
+				fmt.Sprintf("%s.%s writes into %s, which this function did not create: the stored value (message, proof, table entry or key material) is changed for every later reader", rn.Obj().Name(), f.Name(), path(rv)))
+		})
+	}
+}
+
+// checkClones: CLONE-1. A Clone/Copy method of a module type returns an object that shares no reference-typed
+// field with its receiver (in-place operations on the copy must not reach the original).
+func checkClones(c *Ctx, r *Run, rule string) {
+	isRef := func(t types.Type) bool {
+		switch t.Underlying().(type) {
+		case *types.Pointer, *types.Map, *types.Slice:
+			return true
+		}
+		return false
+	}
+	for _, p := range c.LibPkgs() {
+		for _, fn := range funcsOfPkg(c, c.SSA[p.Types]) {
+			if fn.Parent() != nil || fn.Signature.Recv() == nil || len(fn.Params) != 1 {
+				continue
+			}
+			switch fn.Name() {
+			case "Clone", "Copy", "copy":
+			default:
+				continue
+			}
+			T := namedOf(derefType(fn.Signature.Recv().Type()))
+			if T == nil {
+				continue
+			}
+			st, isStruct := T.Underlying().(*types.Struct)
+			if !isStruct {
+				continue
+			}
+			refs := 0
+			for i := 0; i < st.NumFields(); i++ {
+				if isRef(st.Field(i).Type()) {
+					refs++
+				}
+			}
+			if refs == 0 {
+				continue
+			}
+			name := c.FuncName(fn)
+			r.Analysed(name)
+			recv := ssa.Value(fn.Params[0])
+			shared := ""
+			for _, ret := range returnsOf(fn) {
+				if len(ret.Results) == 0 {
+					continue
+				}
+				v := stripConv(ret.Results[0])
+				a, ok := v.(*ssa.Alloc)
+				if !ok {
+					continue
+				}
+				// whole-struct copy of the receiver: `return &ct` / `c := *p; return &c`
+				if sv := singleStore(a); sv != nil {
+					sv = stripConv(sv)
+					if sv == recv {
+						shared = "the returned object is the receiver's struct copied as a whole"
+					}
+					if u, ok := sv.(*ssa.UnOp); ok && u.Op == token.MUL && u.X == recv {
+						shared = "the returned object is *receiver copied as a whole"
+					}
+				}
+				for _, ref := range *a.Referrers() {
+					fa, ok := ref.(*ssa.FieldAddr)
+					if !ok {
+						continue
+					}
+					if !isRef(fa.Type().(*types.Pointer).Elem()) {
+						continue
+					}
+					for _, rr := range *fa.Referrers() {
+						stv, ok := rr.(*ssa.Store)
+						if !ok || stv.Addr != ssa.Value(fa) {
+							continue
+						}
+						val := stripConv(stv.Val)
+						// a direct load of the receiver's same-named field
+						if u, ok := val.(*ssa.UnOp); ok && u.Op == token.MUL {
+							if f2, ok := u.X.(*ssa.FieldAddr); ok && fieldName(f2.X.Type(), f2.Field) == fieldName(fa.X.Type(), fa.Field) && strings.HasPrefix(path(f2.X), fn.Params[0].Name()) {
+								// immutable-by-convention fields (moduli, curves) may be shared
+								if n := namedOf(derefType(f2.Type().(*types.Pointer).Elem())); n != nil && (n.Obj().Name() == "Modulus" || n.Obj().Name() == "Curve") {
+									continue
+								}
+								shared = "field " + fieldName(fa.X.Type(), fa.Field) + " of the copy is the receiver's own object"
+							}
+						}
+					}
+				}
+			}
+			r.Check(rule, name+"|deep", c.Pos(fn.Pos()), shared == "", T.Obj().Name()+"."+fn.Name()+" returns an object that shares no mutable reference field with the receiver",
+				shared+": operations that update the copy in place (Add, Randomize, Negate, ...) silently change the original too")
+		}
+	}
 }
